@@ -17,6 +17,8 @@ def main():
     # Hostile draws are valid
     for pol in rng.POLICIES:
         h = rng.HostileRandomState(pol, 1)
+        if pol == 'stall':      # valid draws throughout, full support only after its patience has run out
+            assert all(0 <= h.randint(7) < 7 for _ in range(rng.STALL_DRAWS + 10))
         for _ in range(200):
             v = h.randint(7)
             assert 0 <= v < 7
